@@ -48,7 +48,7 @@ static void ptxt(const char *fmt, ...) {
 }
 #define BAD(key, ...) do { char _b[700]; snprintf(_b, sizeof(_b), __VA_ARGS__); vf_fail(key, "flags=%#x dtor=%d seed=%llu len=%d: %s | program: %s", c->flags, c->with_dtor, cur_seed, c->nlive, _b, prog_txt); } while (0)
 
-static long long st_maxlive, st_ops, st_updates, st_updates_dup, st_refused, st_growths, st_wrap_clusters, st_iter_rm, st_iter_rm_wrap, st_itr_rm, st_dtor, st_keys_same_slot, st_walks;
+static long long st_giant, st_maxlive, st_ops, st_updates, st_updates_dup, st_refused, st_growths, st_wrap_clusters, st_iter_rm, st_iter_rm_wrap, st_itr_rm, st_dtor, st_keys_same_slot, st_walks;
 
 static val_t *new_val(void) { if (n_vals >= MAXV) return NULL; val_t *v = &V[n_vals]; v->id = n_vals; v_dead[n_vals] = false; n_vals++; return v; }
 
@@ -314,12 +314,22 @@ static void run_sequence(uint64_t seed, int maxops, bool sample) {
     if (!c->m) { vf_fail("C05/new-null", "m_map_new returned NULL"); return; }
 
     /* key population */
-    int mode = vf_below(&r, hash_copy_valid ? 5 : 2);
+    int mode = vf_below(&r, hash_copy_valid ? 6 : 2);
     const char *keys[MAXK]; int nk = 0;
     bool wrap = false;
     if (mode == 0) { int R = 4 + vf_below(&r, 60); for (int i = 0; i < R; i++) keys[nk++] = pool[vf_below(&r, NPOOL)]; }
     else if (mode == 1) { int R = 200 + vf_below(&r, 900); for (int i = 0; i < R && nk < MAXK - 4; i++) keys[nk++] = pool[vf_below(&r, NPOOL)]; }   /* forces growth */
     else if (mode == 2) { int s = vf_below(&r, 256); for (int i = 0; i < n_by_slot256[s] && i < 30; i++) keys[nk++] = pool[by_slot256[s][i]]; st_keys_same_slot += nk; }
+    else if (mode == 5) {
+        /* one giant probe chain: a run of L consecutive home slots each holding its own key, plus keys homed early in the
+         * run that end up displaced (by up to 127 slots) behind it; chains longer than half the table are legal below
+         * the 0.75 load factor */
+        int start = vf_below(&r, 256), L = 100 + vf_below(&r, 70);
+        for (int i = 0; i < L; i++) { int h = (start + i) & 255; if (n_by_slot256[h] > 0) keys[nk++] = pool[by_slot256[h][0]]; }
+        int D = 2 + vf_below(&r, 14);
+        for (int i = 0; i < D; i++) { int h = (start + L - 20 - vf_below(&r, 100)) & 255; int which = 1 + vf_below(&r, 3); if (n_by_slot256[h] > which) keys[nk++] = pool[by_slot256[h][which]]; }
+        st_giant++;
+    }
     else {
         /* clusters that wrap the end of the 256-slot table: homes 253..255 plus a few at 0..2 */
         wrap = true;
@@ -333,6 +343,7 @@ static void run_sequence(uint64_t seed, int maxops, bool sample) {
     int nops = 1 + vf_below(&r, maxops);
     if (mode == 1) nops += nk;        /* enough puts to actually grow */
     uint64_t h = seed ^ c->flags; bool nontriv = false;
+    if (mode == 5) { for (int i = 0; i < nk; i++) op_put(c, keys[i], &r); prog_len = 0; ptxt("<giant chain of %d keys loaded in order> ", nk); }
     if (mode == 1) { int G = 150 + vf_below(&r, nk - 149); for (int i = 0; i < G && i < nk; i++) op_put(c, keys[i], &r); prog_len = 0; ptxt("<bulk load of %d keys> ", G); }
     for (int i = 0; i < nops && n_vals < MAXV - 8; i++) {
         int o = vf_below(&r, 100);
@@ -341,14 +352,14 @@ static void run_sequence(uint64_t seed, int maxops, bool sample) {
         if (o < (mode == 1 ? 60 : 40)) op_put(c, k, &r);
         else if (o < 52) op_get(c, k);
         else if (o < 66) op_remove(c, k);
-        else if (o < 76) { op_scan(c, "scan"); op_walk(c, &r, mode == 1 ? 10 + vf_below(&r, 40) : 1 + vf_below(&r, 4), vf_chance(&r, 1, 2) ? 3 : 0); nontriv = true; }
+        else if (o < 76) { op_scan(c, "scan"); op_walk(c, &r, (mode == 1 || mode == 5) ? 10 + vf_below(&r, 40) : 1 + vf_below(&r, 4), vf_chance(&r, 1, 2) ? 3 : 0); nontriv = true; }
         else if (o < 86) { op_scan(c, "scan");
             int stop = vf_chance(&r, 1, 5) ? 1 + vf_below(&r, 4) : 0;
             int before = c->nlive;
-            op_iterate(c, &r, vf_chance(&r, 4, 5) ? (mode == 1 ? 10 + vf_below(&r, 40) : 1 + vf_below(&r, 3)) : 0, stop, vf_chance(&r, 1, 2) ? 1 : -7);
+            op_iterate(c, &r, vf_chance(&r, 4, 5) ? ((mode == 1 || mode == 5) ? 10 + vf_below(&r, 40) : 1 + vf_below(&r, 3)) : 0, stop, vf_chance(&r, 1, 2) ? 1 : -7);
             if (wrap && c->nlive < before) st_iter_rm_wrap++;
             nontriv = true; }
-        else if (o < 88) { if (mode != 1 || vf_chance(&r, 1, 20)) op_clear(c); }
+        else if (o < 88) { if ((mode != 1 && mode != 5) || vf_chance(&r, 1, 20)) op_clear(c); }
         else op_scan(c, "scan");
         h = vf_mix(h, o * 131 + c->nlive);
     }
@@ -390,6 +401,7 @@ int main(int argc, char **argv) {
     vf_stat("refused_puts", st_refused);
     vf_stat("table_growths", st_growths);
     vf_stat("wrap_cluster_sequences", st_wrap_clusters);
+    vf_stat("giant_chain_sequences", st_giant);
     vf_stat("same_home_slot_keys", st_keys_same_slot);
     vf_stat("removals_inside_iterate_callback", st_iter_rm);
     vf_stat("iterate_with_removal_over_wrap_cluster", st_iter_rm_wrap);
